@@ -222,6 +222,18 @@ func c13Gen(c *core.Ctx, idx int) *c13Doc {
 	case k < 11:
 		d.Kind = "deep"
 		d.bytes = []byte(deepDoc(r.Intn(3), []int{50, 500, 5000, 20000}[r.Intn(4)]))
+	case k < 17:
+		d.Kind = "executable"
+		doc := genExecDoc(r)
+		if r.Intn(3) == 0 {
+			var desc string
+			doc, desc = mutateDoc(r, doc)
+			d.Muts = append(d.Muts, desc)
+			d.Kind = "executable+mutation"
+		}
+		b, _ := yaml.Marshal(doc)
+		d.bytes = b
+		d.Eval = true
 	case k < 25:
 		d.Kind = "valid"
 		b, _ := yaml.Marshal(genDoc(r))
@@ -375,8 +387,12 @@ func c13OneDoc(e *c13Env, idx int, d *c13Doc) {
 				_ = dag.EvalConditions(s.Preconditions)
 			}
 		}))
-		if c13Executable(loaded) {
+		c.Count("loaded_with_evaluation", 1)
+		if c13Executable(loaded) && (!c.Quick() || idx%2 == 0) {
 			c13Execute(e, idx, d, loaded, violate)
+		} else if strings.HasPrefix(d.Kind, "executable") {
+			c.Count("executable_kind_not_run", 1)
+			c.SetAdd("not_run_because", c13WhyNot)
 		}
 	}
 	c.Sig(d.Kind, d.Muts, len(d.bytes), d.Text)
@@ -386,34 +402,45 @@ func c13OneDoc(e *c13Env, idx int, d *c13Doc) {
 }
 
 // c13Executable: only definitions whose steps are harmless and short are run.
+var c13WhyNot string
+
 func c13Executable(d *dag.DAG) bool {
-	if len(d.Steps) == 0 || len(d.Steps) > 6 || d.Delay > time.Second || (d.MailOn != nil && (d.MailOn.Failure || d.MailOn.Success)) {
-		return false
+	c13WhyNot = ""
+	no := func(w string) bool { c13WhyNot = w; return false }
+	if len(d.Steps) == 0 || len(d.Steps) > 6 {
+		return no("step-count")
+	}
+	if d.Delay > time.Second || (d.MailOn != nil && (d.MailOn.Failure || d.MailOn.Success)) {
+		return no("delay-or-mail")
 	}
 	ok := func(s *dag.Step) bool {
 		if s == nil {
 			return true
 		}
 		if s.ExecutorConfig.Type != "" && s.ExecutorConfig.Type != "command" {
-			return false
+			return no("executor-type")
 		}
 		if s.SubWorkflow != nil || s.RepeatPolicy.Repeat || s.MailOnError || len(s.Script) > 200 {
-			return false
+			return no("subworkflow-repeat-mail")
 		}
 		if s.RetryPolicy != nil && (s.RetryPolicy.Interval > time.Second || s.RetryPolicy.Limit > 3) {
-			return false
+			return no("retry-policy")
 		}
 		if len(s.Command)+len(s.CmdWithArgs) > 300 {
-			return false
+			return no("long-command")
 		}
-		if s.Dir != "" && s.Dir != "/tmp" {
-			return false
+		if s.Dir != "" && s.Dir != "/tmp" && !strings.HasPrefix(s.Dir, os.Getenv("VERIF_SHARD_SCRATCH")+"/") {
+			return no("dir")
 		}
-		switch s.Command {
-		case "", "true", "false", "echo", "sh", "verif-no-such-binary":
+		cmd := s.Command
+		if cmd == "" {
+			cmd = strings.Fields(s.CmdWithArgs + " x")[0]
+		}
+		switch cmd {
+		case "true", "false", "echo", "sh", "verif-no-such-binary":
 			return true
 		}
-		return false
+		return no("command:" + clip(cmd, 20))
 	}
 	for i := range d.Steps {
 		if !ok(&d.Steps[i]) {
@@ -540,6 +567,6 @@ func init() {
 		Passes: func(tier string) []core.Pass {
 			return []core.Pass{{Name: "main", Mode: "load", Shards: 16, Timeout: 60 * time.Minute}}
 		},
-		Rule:        "Documents: valid definitions drawn from a grammar covering every documented field (schedule in its three forms, env list/map, params, logDir, handlers, functions/call, sub-workflow, executor string/map/nested config, preconditions incl. re:, retry/repeat/continueOn, signalOnStop, mail/smtp, limits); 1-3 structural mutations of such a tree (type confusion scalar/list/map/null, delete, duplicate key, wrap in list/map, unknown key, non-string keys, null list elements, hostile strings: invalid regex/cron/signal, YAML 1.1 booleans, 70 kB strings, unicode); a quarter additionally byte-mutated; raw random bytes; deeply nested documents (50-20000 levels); a hand-written corpus aimed at every hand-coded type switch. Each document goes, inside a child process that logs BEGIN/END around it, through dag.LoadYAML, LoadMetadata, LoadWithoutEval, (safe-pool strings only) Load and Load with the document as base configuration, DAGStore.GetMetadata/GetDetails/List/Grep/TagList/UpdateSpec, client.GetStatus/GetAllStatus, and the scheduler daemon's directory scan + one tick. Refuted by: a panic (caught per call, keyed by the innermost blackdagger frame) or process death, a call that does not return in 30 s, an accepted definition with a step without name / with nothing to execute, a schedule entry that is not parsed or not parseable, an unknown signalOnStop, a status (model.NewStatus) that cannot be JSON-encoded, read back and re-encoded identically; EvalConditions panicking; for accepted definitions whose steps are harmless (true/false/echo/sh, no repeat, no mail) the real Agent.Run over a real history store: panic, served status not encodable, run file present but not readable back with the request id and a final status. Non-trivial & distinct = distinct document texts.",
+		Rule:        "Documents: valid definitions drawn from a grammar (plus a sub-grammar of quickly executable command-only definitions, a third of them with one mutation, so that the executed subset is large) covering every documented field (schedule in its three forms, env list/map, params, logDir, handlers, functions/call, sub-workflow, executor string/map/nested config, preconditions incl. re:, retry/repeat/continueOn, signalOnStop, mail/smtp, limits); 1-3 structural mutations of such a tree (type confusion scalar/list/map/null, delete, duplicate key, wrap in list/map, unknown key, non-string keys, null list elements, hostile strings: invalid regex/cron/signal, YAML 1.1 booleans, 70 kB strings, unicode); a quarter additionally byte-mutated; raw random bytes; deeply nested documents (50-20000 levels); a hand-written corpus aimed at every hand-coded type switch. Each document goes, inside a child process that logs BEGIN/END around it, through dag.LoadYAML, LoadMetadata, LoadWithoutEval, (safe-pool strings only) Load and Load with the document as base configuration, DAGStore.GetMetadata/GetDetails/List/Grep/TagList/UpdateSpec, client.GetStatus/GetAllStatus, and the scheduler daemon's directory scan + one tick. Refuted by: a panic (caught per call, keyed by the innermost blackdagger frame) or process death, a call that does not return in 30 s, an accepted definition with a step without name / with nothing to execute, a schedule entry that is not parsed or not parseable, an unknown signalOnStop, a status (model.NewStatus) that cannot be JSON-encoded, read back and re-encoded identically; EvalConditions panicking; for accepted definitions whose steps are harmless (true/false/echo/sh, no repeat, no mail) the real Agent.Run over a real history store: panic, served status not encodable, run file present but not readable back with the request id and a final status. Non-trivial & distinct = distinct document texts.",
 		Assumptions: []string{"commands that an evaluating load may execute resolve only inside a scratch bin directory (sh, echo, true, false)", "the executed subset is restricted to harmless short steps; a run that exceeds 20 s is counted, not judged"}})
 }
